@@ -447,6 +447,10 @@ NoLostWakeup ==
   (st = "open" /\ Live # {} /\ (\A c \in Live : cs[c] = "wait") /\ token = 0 /\ (\A p \in Pushers : ~pu[p].pushed))
      => mem = <<>>
 
+(* the cause of a lost wake-up, visible from outside: the token is never there before the
+   transaction is (while nothing was popped and the token was not taken) *)
+TokenAfterAppend == (token = 1 /\ popd = <<>> /\ st = "open") => mem # <<>>
+
 (* the executor sees every popped transaction exactly once, in order (batches of <= Batch) *)
 RECURSIVE Flat(_)
 Flat(s) == IF s = <<>> THEN <<>> ELSE Head(s)[1] \o Flat(Tail(s))
